@@ -63,8 +63,13 @@ def fetch_case(draw, tier="quick", smart=False):
                                   ghosts=True, tags=True, meta=True,
                                   odd_names=False, bb_safe=True, ops_max=2,
                                   base_max=3))
+    _append_patterns(draw, spec)
     ids = [r["id"] for r in spec["revs"]]
     w = draw(st.integers(0, 9))
+    if smart:
+        # through the server every cross-serializer pair takes the streaming
+        # path (inventory deltas): give it more weight there
+        w = draw(st.sampled_from([0, 0, 3, 5, 6, 7, 8, 9, 9, 9]))
     if w < 3:
         sfmt = tfmt = "2a"
     elif w < 5:
@@ -81,17 +86,75 @@ def fetch_case(draw, tier="quick", smart=False):
                         max_size=2, unique=True))
     route = draw(st.sampled_from(["fetch", "fetch", "pull", "push", "sprout"]))
     stacked = None
-    if route != "sprout" and tfmt in STACKABLE and draw(st.integers(0, 3)) == 0:
+    # (a stacked 2a target also forces the streaming path for local
+    # cross-serializer fetches)
+    # and a stacked knit-pack target is where text deltas against a basis
+    # that lives only in the fallback could be stored
+    p_stack = 2 if ((tfmt == "2a" and sfmt != "2a") or
+                    tfmt in ("1.9", "1.9-rich-root", "1.14",
+                             "1.14-rich-root")) else 4
+    if route != "sprout" and tfmt in STACKABLE and \
+            draw(st.integers(0, p_stack - 1)) == 0:
         stacked = draw(st.sampled_from(ids))
     unrelated = 0
     if stacked is None:
         unrelated = draw(st.sampled_from([0, 0, 1, 2]))
     remote = None
     if smart:
-        remote = draw(st.sampled_from(["src", "tgt", "tgt", "both"]))
+        remote = draw(st.sampled_from(["src", "src", "tgt", "tgt", "both"]))
+    # the source itself stacked on a repository holding the ancestry of a
+    # prefix revision (the stream is then assembled from source + fallback)
+    src_stacked = None
+    if sfmt in STACKABLE and draw(st.integers(0, 5)) == 0:
+        src_stacked = draw(st.sampled_from(ids))
     return {"spec": spec, "sfmt": sfmt, "tfmt": tfmt, "x": x, "pre": pre,
             "route": route, "stacked": stacked, "unrelated": unrelated,
-            "remote": remote, "hold": draw(st.booleans())}
+            "remote": remote, "hold": draw(st.booleans()),
+            "src_stacked": src_stacked,
+            # revisions examined per round of the walk to common revisions
+            # (class attribute of InterVersionedFileRepository, default 50)
+            "walk_batch": draw(st.sampled_from([50, 50, 1, 2, 3]))}
+
+
+def _append_patterns(draw, spec):
+    """Merge shapes history_spec never draws (BranchBuilder records them as
+    given): (a) a merge one of whose parents is an ancestor of another parent;
+    (b) a merge [L, O] whose tree equals O's (O's own edit script replayed on
+    its left parent L), so that the smallest inventory delta is the one
+    against the SECOND parent and the left parent is an ancestor of it;
+    (c) the same with an empty sibling L' of L as left parent (no redundant
+    parent)."""
+    revs = spec["revs"]
+    g = {r["id"]: tuple(r["parents"]) for r in revs}
+    proto = revs[-1]
+
+    def mk(parents, ops):
+        i = len(revs)
+        rev = {"id": "r%d" % i, "parents": parents, "ghosts": [],
+               "ops": [list(o) for o in ops], "msg": "m%d" % i,
+               "ts": bz.T0 + 100 * i, "tz": 0,
+               "committer": proto["committer"], "props": {}}
+        revs.append(rev)
+        g[rev["id"]] = tuple(parents)
+        return rev["id"]
+
+    k = draw(st.sampled_from(["none", "none", "redundant", "adopt",
+                              "adopt-sibling", "both"]))
+    if k in ("redundant", "both"):
+        a = draw(st.sampled_from(sorted(g)))
+        anc = sorted(gm.ancestry(g, a) - {a})
+        if anc:
+            b = draw(st.sampled_from(anc))
+            ps = [a, b] if draw(st.integers(0, 3)) else [b, a]
+            mk(ps, [])
+    if k in ("adopt", "adopt-sibling", "both"):
+        cands = [r for r in revs if r["parents"] and r["ops"]]
+        if cands:
+            o = draw(st.sampled_from(cands))
+            left = o["parents"][0]
+            if k == "adopt-sibling":
+                left = mk([left], [])
+            mk([left, o["id"]], o["ops"])
 
 
 def _build_unrelated(branch, n):
@@ -112,6 +175,23 @@ def _build_unrelated(branch, n):
     finally:
         bb.finish_series()
     return ["u0", "u1"][:n]
+
+
+def _check_source(repo, spec, g):
+    """Harness sanity: BranchBuilder produced the DAG and trees of the spec."""
+    models = hist.models_of(spec)
+    with repo.lock_read():
+        for rev in spec["revs"]:
+            rid = rev["id"]
+            got = tuple(cf._s(p) for p in repo.get_revision(
+                bz.enc(rid)).parent_ids)
+            if got != tuple(g[rid]):
+                raise RuntimeError("harness: source %s has parents %r, spec %r"
+                                   % (rid, got, g[rid]))
+            if bz.snapshot_tree(repo.revision_tree(bz.enc(rid))) != \
+                    bz.model_snapshot(models[rid]):
+                raise RuntimeError("harness: source tree %s differs from the "
+                                   "spec" % rid)
 
 
 def _transfer(case, env, d, tpath):
@@ -182,11 +262,34 @@ def run(case, env):
     sfmt, tfmt = case["sfmt"], case["tfmt"]
     d = env.newdir("c03")
     spath = os.path.join(d, "src")
-    sb = bz.init_branch(spath, sfmt)
-    hist.build_bb(spec, sb)
-    hist.set_tip(sb, spec, case["x"])
     g = hist.graph_of(spec, ghosts=True)
     want = gm.ancestry(g, case["x"])
+    if case.get("src_stacked") is None:
+        sb = bz.init_branch(spath, sfmt)
+        hist.build_bb(spec, sb)
+        hist.set_tip(sb, spec, case["x"])
+        _check_source(sb.repository, spec, g)
+    else:
+        # full history elsewhere; the source is a stacked clone of x
+        fb = bz.init_branch(os.path.join(d, "srcfull"), sfmt)
+        hist.build_bb(spec, fb)
+        hist.set_tip(fb, spec, case["x"])
+        _check_source(fb.repository, spec, g)
+        sbase = bz.init_branch(os.path.join(d, "srcbase"), sfmt)
+        sbase.repository.fetch(fb.repository,
+                               revision_id=bz.enc(case["src_stacked"]))
+        from breezy import transport as _tr
+        fb.create_clone_on_transport(_tr.get_transport(spath),
+                                     revision_id=bz.enc(case["x"]),
+                                     stacked_on=sbase.base)
+        sb = _branch.Branch.open(spath)
+        sb.set_stacked_on_url("../srcbase")
+        # only x's ancestry (and the fallback's content) is in this source:
+        # set-up fetches (overlap, the target's own fallback) and the
+        # comparison use the full repository
+        sb = fb
+        spec = dict(spec, tags={})
+        spath = os.path.join(d, "srcfull")
     refusal = sfmt in RICH and tfmt not in RICH
     case["_refusal"] = refusal
     srepo = sb.repository
@@ -263,15 +366,40 @@ def run(case, env):
                             label="+".join(label_bits + ["refused"]))
         return check(False, "C03/rich-root-into-plain-accepted",
                      [sfmt, tfmt, case["route"]])
+    from breezy.bzr.vf_repository import InterVersionedFileRepository as _IVFR
+    old_batch = _IVFR._walk_to_common_revisions_batch_size
+    _IVFR._walk_to_common_revisions_batch_size = case.get("walk_batch", 50)
     try:
         return _run_transfers(case, env, d, tpath, spath, sfmt, tfmt, spec, g,
                               want, pre, unrelated, stacked, trepo_path,
                               open_target, target_state, before_revs,
                               before_tst, base_disk, label_bits)
     finally:
+        _IVFR._walk_to_common_revisions_batch_size = old_batch
         held = case.get("_objs", {}).pop("locked", None)
         if held is not None:
             held.unlock()
+
+
+def _remote_stacked_source_failure(case, sfmt, tfmt, e):
+    """Names two failure classes that need all of: a source that is itself
+    stacked, opened through the smart server, and a stacked target (the
+    client then builds a self-contained stream through the VFS fallback of
+    RemoteStreamSource)."""
+    if case.get("src_stacked") is None or case.get("stacked") is None or \
+            case.get("remote") not in ("src", "both"):
+        return None
+    name = type(e).__name__
+    if name == "TypeError" and sfmt not in RICH and tfmt in RICH and \
+            "bytes-like object" in str(e):
+        return ("C03/rich-root-upgrade-from-remote-stacked-source-into-"
+                "stacked-target-typeerror")
+    if sfmt == tfmt == "2a" and (
+            (name == "BzrCheckError" and "missing referenced chk root" in str(e))
+            or (name == "ErrorFromSmartServer" and "NoSuchRevision" in str(e))):
+        return ("C03/remote-stacked-2a-source-into-stacked-2a-target-misses-"
+                "chk-pages")
+    return None
 
 
 def _run_transfers(case, env, d, tpath, spath, sfmt, tfmt, spec, g, want, pre,
@@ -290,6 +418,17 @@ def _run_transfers(case, env, d, tpath, spath, sfmt, tfmt, spec, g, want, pre,
                 {"sfmt": sfmt, "tfmt": tfmt, "remote": case["remote"],
                  "error": str(e)}, label="sprout+smart")
         raise
+    except Exception as e:  # noqa: BLE001 - re-raised unless it is one of
+        # the two named classes (remote stacked source -> stacked target)
+        sig = _remote_stacked_source_failure(case, sfmt, tfmt, e)
+        if sig is None:
+            raise
+        return violation(sig, {"sfmt": sfmt, "tfmt": tfmt,
+                               "route": case["route"],
+                               "remote": case["remote"],
+                               "error": "%s: %s" % (type(e).__name__,
+                                                    str(e)[:300])},
+                         label=case["route"] + "+smart+stacked+stacked-source")
 
     def verify(tag):
         t = open_target()
